@@ -205,7 +205,8 @@ def run_case(ctx, n_tracers, attempts, script, kind, supplied_ctx, is_async, ins
         req = v20.Request('m', [1], id=5)
         op = lambda: client.send(req, _trace_ctx=tctx)
     elif kind == 'batch':
-        req = v20.BatchRequest(v20.Request('a', [1], id=1), v20.Request('b', [2], id=2))
+        # (every other batch is built by the caller with strict=False: the flag concerns duplicate ids, nothing else)
+        req = v20.BatchRequest(v20.Request('a', [1], id=1), v20.Request('b', [2], id=2), **({'strict': False} if n_tracers % 2 else {}))
         op = lambda: client.batch.send(req, _trace_ctx=tctx)
     else:
         req = v20.Request('n', [1], id=None)
